@@ -23,6 +23,7 @@ PROPS["C12"] = {
     ] + [
         {"name": "c12_label", "params": {"quick": {"n": 3}, "thorough": {"n": 4}}},
         {"name": "c12_rotate", "params": {"quick": {"n": 7}, "thorough": {"n": 10}}},
+        {"name": "c12_rotate_kinds", "fn": "c12_rotate", "params": {"quick": {"n": 4, "kinds": 1}, "thorough": {"n": 5, "kinds": 1}}},
     ],
     "bounds": {"quick": "single log file of n = 0..6 records with distinct (db,key), timestamps any u64 strictly increasing (n<=6) / non-decreasing (n in 2,3,5), since any u64; labelling: 3 records over 2 dbs x 2 keys x 4 kinds; rotation: 7 records with NUN_MAX_OP_LOG_SIZE=750 (3 records per file)",
                "thorough": "n up to 10; labelling 4 records; rotation 10 records"},
@@ -91,9 +92,10 @@ PROPS["C10"] = {
     "harnesses": [
         {"name": "c10_parse", "params": {"quick": {"len": 24}, "thorough": {"len": 48}}, "covers": ["parse.ok", "parse.err"], "budget_s": {"quick": 900, "thorough": 3600}},
         {"name": "c10_parse_permissions", "params": {"quick": {"listlen": 4, "charlen": 2, "splitlimit": 2}, "thorough": {"listlen": 6, "charlen": 2, "splitlimit": 2}}, "covers": ["perm.ok"], "budget_s": {"quick": 900, "thorough": 3600}},
+        {"name": "c10_samples", "covers": ["sample.answered"]},
         {"name": "c10_handlers", "params": {"quick": {"arglen": 3, "free_tail": 0}, "thorough": {"arglen": 6, "free_tail": 1}}, "covers": ["handler.error-reply", "handler.ok-reply"], "budget_s": {"quick": 900, "thorough": 7200}},
     ],
-    "bounds": {"quick": "parser: one fully symbolic line of <= 24 printable ASCII characters (at most 3 trailing ';', at most 3 separators located per split of symbolic text; lines starting with 'set-permissions ' go to their own harness: symbolic permission list of <= 4 chars, kinds walked up to 2 chars, <= 2 separators per split); handlers: every word of the parser table x 0..3 symbolic space-free tokens of <= 3 characters x session in {unauthenticated, admin with database, database token}, one command through process_request from a pre-state holding one resolved and one unresolved conflict record, followed by a probe set/get from a second client",
+    "bounds": {"quick": "parser: one fully symbolic line of <= 24 printable ASCII characters (at most 3 trailing ';', at most 3 separators located per split of symbolic text; lines starting with 'set-permissions ' go to their own harness: symbolic permission list of <= 4 chars, kinds walked up to 2 chars, <= 2 separators per split); handlers: every word of the parser table x 0..3 symbolic space-free tokens of <= 3 characters x session in {unauthenticated, admin with database, database token}, one command through process_request from a pre-state holding one resolved and one unresolved conflict record, followed by a probe set/get from a second client; plus 14 concrete hostile lines (5000-byte token, 2- / 3- / 4-byte UTF-8 characters straddling the 250 / 1024 / 4096 byte marks, control characters, 300 separators, 400-digit numbers) from two session kinds",
                "thorough": "line <= 48 chars; tokens <= 6 chars with a free-form last argument"},
     "outside": "non-UTF-8 bytes (rejected by the transports before the parser) and non-ASCII text in symbolic positions; the ws / tiny_http crates; sequences of more than one hostile command; arithmetic overflow panics that exist only in debug builds are reported under their own check ids",
     "assumptions": ["environment shims", "single-thread self-deadlock = a lock requested while the same thread holds it incompatibly is reported as a panic"],
@@ -191,8 +193,9 @@ PROPS["C05"] = {
     "harnesses": [
         {"name": "c05_rejoin_incremental", "fn": "c05_rejoin", "params": {"quick": {"ops": 2, "full": 0}, "thorough": {"ops": 3, "full": 0}}, "budget_s": {"quick": 900, "thorough": 7200}},
         {"name": "c05_rejoin_full", "fn": "c05_rejoin", "params": {"quick": {"ops": 2, "full": 1}, "thorough": {"ops": 3, "full": 1}}, "budget_s": {"quick": 900, "thorough": 7200}},
+        {"name": "c05_join_empty", "fn": "c05_rejoin", "params": {"quick": {"ops": 1, "full": 1, "empty_joiner": 1}, "thorough": {"ops": 2, "full": 1, "empty_joiner": 1}}, "budget_s": {"quick": 900, "thorough": 7200}},
     ],
-    "bounds": {"quick": "primary + one secondary with a common replicated history (database d, keys a, b); the secondary leaves; 2 operations on the primary from {set a v, set new key v, remove a, remove new key, create-db e (arbiter), increment b} with symbolic values (<= 3 printable chars, spaces and digits included) while the primary's real replication loop writes the op-log; then the catch-up list of get_pendding_opps_since (incremental: since = Oplog::last_op_time at departure; full: since = 0) is fed line by line through the joiner's process_request; databases and live keys, values byte for byte, versions, token and strategy of new databases are compared",
+    "bounds": {"quick": "primary + one secondary with a common replicated history (database d, keys a, b, a user with a permission list); also a node joining with an empty disk (full sync into a fresh node); the secondary leaves; 2 operations on the primary from {set a v, set new key v, remove a, remove new key, create-db e (arbiter), increment b} with symbolic values (<= 3 printable chars, spaces and digits included) while the primary's real replication loop writes the op-log; then the catch-up list of get_pendding_opps_since (incremental: since = Oplog::last_op_time at departure; full: since = 0) is fed line by line through the joiner's process_request; databases and live keys, values byte for byte, versions, token and strategy of new databases are compared",
                "thorough": "3 operations"},
     "outside": "writes accepted by the primary during the synchronisation; several rotated op-log files (C12); restart of the primary between departure and return (C16); both nodes share one data directory in the model (the joiner's own op-log is not read)",
     "assumptions": ["environment shims", "the joiner's last operation time equals the primary's newest record at departure"],
@@ -216,8 +219,9 @@ PROPS["C03"] = {
         {"name": "c03_seq", "params": {"quick": {"events": 4}, "thorough": {"events": 5}}, "covers": ["notify.delivered"], "budget_s": {"quick": 900, "thorough": 14400}},
         {"name": "c03_race_disconnect", "fn": "c03_race", "params": {"quick": {"mode": 0}}},
         {"name": "c03_race_writer", "fn": "c03_race", "params": {"quick": {"mode": 1}}},
+        {"name": "c03_backlog"},
     ],
-    "bounds": {"quick": "sequential: all sequences of 4 events from {S watches k, S unwatches k, S unwatch-all, another client watches k / unwatches k / unwatch-all / disappears with or without its registrations cleaned, writer: set, set-safe with any base version in [-1,4], increment, remove, write of another key}; after every writer step S's inbox is compared with what the step owes it. Concurrent: S registers for k while another client (watching k and j) disconnects, and while a writer writes k, under all lock-level interleavings; afterwards a write must reach S",
+    "bounds": {"quick": "sequential: all sequences of 4 events from {S watches k, S unwatches k, S unwatch-all, another client watches k / unwatches k / unwatch-all / disappears with or without its registrations cleaned, writer: set, set-safe with any base version in [-1,4], increment, remove, write of another key}; after every writer step S's inbox is compared with what the step owes it. Concurrent: S registers for k while another client (watching k and j) disconnects, and while a writer writes k, under all lock-level interleavings; afterwards a write must reach S. Backlog: a subscriber with 102 unread notifications (above the queue's buffer of 100), then remove / set / remove: one removed line per remove",
                "thorough": "5 sequential events"},
     "outside": "three concurrently running actors (more than 200 000 schedules; not exhausted within the budget); two concurrent writers (the stale-final-view part of the property; the atomic set_value of C02 covers its cause); replicated writes",
     "assumptions": ["environment shims", "partial-order reduction: session locks, the database table and the metrics averages are not yield points (checked for contention)"],
